@@ -54,8 +54,26 @@ def install():
     nest_asyncio._patch_asyncio()  # pure-Python Task/Future, as in production under nest_asyncio
 
     _install_clock_and_id_shims()
+    _install_thread_emulation()
     _installed = True
     return plumpy
+
+
+def _install_thread_emulation():
+    """Code that runs in the communicator's thread in production (SimLoop 'foreign' mode) has no current event loop:
+    asyncio.get_event_loop() - hence asyncio.Future() without a loop - raises there, as it does in a thread that never
+    set one."""
+    from . import loop as loop_module
+
+    # the event loop policy is the seam every spelling goes through: asyncio.get_event_loop(), nest_asyncio's replacement
+    # of it, and the C implementation behind asyncio.Future() / asyncio.ensure_future()
+    class SimPolicy(asyncio.DefaultEventLoopPolicy):
+        def get_event_loop(self):
+            if loop_module.FOREIGN[0] > 0:
+                raise RuntimeError("There is no current event loop in thread 'communicator-thread' (simulated).")
+            return super().get_event_loop()
+
+    asyncio.set_event_loop_policy(SimPolicy())
 
 
 def _install_clock_and_id_shims():
